@@ -225,6 +225,8 @@ func (n *Tree[V]) delNode(path string, matcher ValueMatcher[V], inStaticToken bo
 
 		if newSize == 0 {
 			n.backtrackingEnabled = true
+			// the names belonged to the expressions of the removed values
+			n.wildcardKeys = nil
 		}
 
 		return oldSize != newSize
